@@ -247,7 +247,7 @@ def run(ctx):
             ctx.check(o8, len(steps) == 1 and f.canon(steps[0]["rhs"], subst=False) == "%s->pred" % en, k + ":step", f.where(w), "back-trace continues with %s, not with the predecessor of the entry just fetched" % [f.canon(s["rhs"], subst=False) if s["rhs"] is not None else s["op"] for s in steps])
             # initial value of walk: the exit index
             wd = [i for i in f.walk(cond) if f.k(i) == "DeclRef" and f.nodes[i]["name"] == walk][0]
-            inits = [form for (dn, form) in f.def_forms(wd) if form is None or "->pred" not in form]
+            inits = [form for (dn, form) in f.def_forms(wd, calls=True) if form is None or "->pred" not in form]
             ctx.check(o8, inits == ["fsg_search_find_exit(%s, %s->frame, %s->final, %s)" % (S(f), S(f), S(f), "out_score" if fname == "fsg_search_hyp" else "&out_score")], k + ":start", f.where(w), "back-trace starts from %s" % inits)
             # word source
             for v in f.find("Var", root=body):
